@@ -133,9 +133,11 @@ package test
 //@   ensures names_untouched [C26]: results.Name == old(results.Name) && results.ClassName == old(results.ClassName)
 //
 //@ func toCoreCached
+//@   property C26
 //@   modifies nothing
 //@   opt nopanic=off
 //@ func toCoreProperties
+//@   property C26
 //@   modifies nothing
 //@   opt nopanic=off
 //
